@@ -24,6 +24,7 @@ Mirrored code:
   `AnyMarker`: `hash("any")`; `EmptyMarker`: `hash("empty")`.
 -/
 import PoetryVerif.Model.MarkerAlg
+import PoetryVerif.Model.Dep
 
 namespace Poetry.EqHash
 open Poetry Poetry.Generic Poetry.Marker
@@ -133,6 +134,42 @@ def mHashList : List M → List HIn
   | [] => []
   | m :: ms => mHash m :: mHashList ms
 end
+
+/-! ### package specifications, dependencies, packages -/
+
+def optStrHash : Option String → HIn
+  | Option.none => .none
+  | some s => .str s
+
+/-- `PackageSpecification.__hash__`: `hash(complete_name)`, and when `source_type` is truthy
+`^ hash(source_type) ^ hash(source_url) ^ hash(source_subdirectory)` (references are left out on purpose) -/
+def specHash (s : Dep.Spec) : HIn :=
+  if Dep.truthy s.sourceType then
+    .xor [.str s.completeName, optStrHash s.sourceType, optStrHash s.sourceUrl, optStrHash s.sourceSubdirectory]
+  else .str s.completeName
+
+/-- `Dependency.__hash__` is the specification's (the constraint is mutable and left out) -/
+def depHash (d : Dep.Dep) : HIn := specHash d.spec
+
+/-- `Package`: a specification with a version.  `__eq__`: `super().__eq__(other) and self._version == other.version`;
+`__hash__`: `super().__hash__() ^ hash(self._version)` -/
+structure Pkg where
+  spec : Dep.Spec
+  version : Version
+
+def Pkg.beq (a b : Pkg) : Bool := a.spec.beq b.spec && Version.eqv a.version b.version
+def pkgHash (p : Pkg) : HIn := .xor [specHash p.spec, verHash p.version]
+
+/-- falsy source fields are stored as `None` (what every constructor call made by poetry-core itself does;
+`#subdirectory=` with an empty value in a URL requirement is the exception, see the counterexample) -/
+def specNormal (s : Dep.Spec) : Bool := s.sourceUrl != some "" && s.sourceSubdirectory != some ""
+
+/-- no source reference of the three is a proper prefix of another, and none carries a resolved reference:
+the guard under which specification equality is transitive -/
+def refsExact (l : List Dep.Spec) : Prop :=
+  (∀ a ∈ l, Dep.truthy a.sourceResolvedReference = false) ∧
+  (∀ a ∈ l, ∀ b ∈ l, Dep.startsWithS (a.sourceReference.getD "") (b.sourceReference.getD "") = true →
+    a.sourceReference.getD "" = b.sourceReference.getD "")
 
 /-! ### reachability predicates used by the theorems -/
 
